@@ -55,6 +55,7 @@ class Program:
             self.types.add_crate(c, os.path.join(build.REPO, build.WORKSPACE[c], "src"), {"library"})
         self._index()
         self._resolve_cache = {}
+        self._repair_closure_aggregates()
 
     # ------------------------------------------------------------ indexing
     def _index(self):
@@ -87,6 +88,45 @@ class Program:
                     self.methods.setdefault(key, []).append((c, tr, f, trait, selfty))
                 else:
                     self.by_last.setdefault((c, last), []).append(f)
+
+    # ------------------------------------------------------------ rustc pretty-printer workaround
+    def _repair_closure_aggregates(self):
+        """`-Zunpretty=mir` prints a closure aggregate by zipping the captured *variable names* with the operands; with
+        edition-2021 disjoint captures (two captures of one variable) the zip is short and the trailing operands are not
+        printed.  The dropped operands are always reference temporaries assigned just before the aggregate and used nowhere
+        else; they are recovered here (and the run is refused if that is not possible)."""
+        self.closure_arity = {}
+        for loc, f in self.closures.items():
+            n = 0
+            for txt in f.debug.values():
+                for m in re.finditer(r"_1\)?\.(\d+):", txt): n = max(n, int(m.group(1)) + 1)
+            for stmts, term in f.blocks.values():
+                for pl in _places_of(stmts, term):
+                    if pl[0] == "_1":
+                        for e in pl[1]:
+                            if e[0] == "f": n = max(n, e[1] + 1); break
+                            if e[0] != "*": break
+            self.closure_arity[loc] = n
+        for c, fs in self.funcs.items():
+            for f in fs.values():
+                uses = None
+                for bb, (stmts, term) in f.blocks.items():
+                    for i, st in enumerate(stmts):
+                        if st[0] == "assign" and st[2][0] == "closure":
+                            loc, caps = st[2][1], st[2][2]
+                            want = self.closure_arity.get(loc, len(caps))
+                            if len(caps) >= want: continue
+                            if uses is None: uses = _use_counts(f)
+                            cand = []
+                            for prev in stmts[:i]:
+                                if prev[0] == "assign" and not prev[1][1] and prev[2][0] == "ref" and uses.get(prev[1][0], 0) == 0:
+                                    cand.append(prev[1][0])
+                            need = want - len(caps)
+                            if len(cand) < need:
+                                caps.append(("!unrecoverable", ("const", f"closure {loc}: {need} capture(s) missing from the MIR text")))
+                                continue
+                            for l in cand[-need:]:
+                                caps.append(("?", ("move", (l, ()))))
 
     # ------------------------------------------------------------ resolution
     def resolve(self, callee, cur_crate):
@@ -200,3 +240,49 @@ def _path_compatible(def_quals, call_quals):
     n = min(len(a), len(b))
     if n == 0: return True
     return a[-n:] == b[-n:]
+
+
+def _places_of(stmts, term):
+    out = []
+
+    def op(o):
+        if o[0] in ("copy", "move"): out.append(o[1])
+
+    def rv(r):
+        k = r[0]
+        if k == "use": op(r[1])
+        elif k == "ref": out.append(r[1])
+        elif k == "binop": op(r[2]); op(r[3])
+        elif k in ("unop",): op(r[2])
+        elif k in ("discr", "len"): out.append(r[1])
+        elif k == "cast": op(r[1])
+        elif k in ("tuple", "array"):
+            for o in r[1]: op(o)
+        elif k == "repeat": op(r[1])
+        elif k in ("closure", "struct"):
+            for _, o in r[2]: op(o)
+        elif k == "ctor":
+            for o in r[2]: op(o)
+    for st in stmts:
+        if st[0] == "assign":
+            rv(st[2])
+            if st[1][1]: out.append(st[1])        # projection on the lhs reads the base
+    t = term
+    if t[0] == "switch": op(t[1])
+    elif t[0] == "assert": op(t[2])
+    elif t[0] == "drop": pass
+    elif t[0] == "call":
+        if t[2][0] == "indirect": op(t[2][1])
+        for a in t[3]: op(a)
+        if t[1] is not None and t[1][1]: out.append(t[1])
+    return out
+
+
+def _use_counts(f):
+    uses = {}
+    for stmts, term in f.blocks.values():
+        for pl in _places_of(stmts, term):
+            uses[pl[0]] = uses.get(pl[0], 0) + 1
+            for e in pl[1]:
+                if e[0] == "i" and isinstance(e[1], str): uses[e[1]] = uses.get(e[1], 0) + 1
+    return uses
